@@ -57,6 +57,9 @@ func genProblem(r *Rng, o ProbOpts) *Problem {
 		}
 		p.Known = append(p.Known, model.AlternativeWithCriteria{Id: id, Criteria: w})
 	}
+	if r.chance(0.03) && na >= 2 { // ids that differ only in case are different ids
+		p.Known[na-1].Id = "A0"
+	}
 	if r.chance(0.1) && na >= 2 { // identical alternatives
 		p.Known[na-1].Criteria = copyW(p.Known[0].Criteria)
 	}
@@ -165,6 +168,9 @@ func weightsJSON(r *Rng, cids []string, distinct bool) J {
 	used := map[float64]bool{}
 	for _, c := range cids {
 		v := r.weight()
+		if len(cids) > 12 && !distinct {
+			v = float64(1 + r.Intn(3)) // many criteria: tie groups of importance
+		}
 		for distinct && used[v] {
 			v += 0.125
 		}
@@ -317,7 +323,7 @@ func methodParamsJSON(r *Rng, method string, p *Problem) J {
 		return mp
 	case "aspectEliminationHeuristic":
 		fn, par := levelsJSON(r, p, true)
-		mp := J{"function": fn, "params": par, "randomSeed": r.Intn(1000), "weights": weightsJSON(r, cids, r.chance(0.8))}
+		mp := J{"function": fn, "params": par, "randomSeed": r.Intn(1000), "weights": weightsJSON(r, cids, r.chance(0.8) || len(cids) > 8)}
 		if r.chance(0.4) {
 			mp["randomAlternativesOrdering"] = true
 		}
@@ -503,6 +509,11 @@ func genRequest(r *Rng, o ReqOpts) *Req {
 		if po.MaxCrit == 0 || po.MaxCrit > 4 {
 			po.MaxCrit = 4
 		}
+	}
+	if method != "choquetIntegral" && method != "aspectEliminationHeuristic" && po.MaxCrit != 1 && r.chance(0.04) {
+		// (not for Choquet — 2^n capacities — nor aspect elimination, whose checker enumerates examination orders)
+		// many criteria (sort.Slice / sort.SliceStable differ only above 12 elements), few weight levels below
+		po.MinCrit, po.MaxCrit = 13, 16
 	}
 	p := genProblem(r, po)
 	crit, known := problemJSON(p)
